@@ -28,9 +28,9 @@ type faultCase struct {
 func kindsFor(pk probeKind) []faultKind {
 	switch pk {
 	case pkValue, pkMethod:
-		return []faultKind{fkErr, fkWrongKind, fkErrTyped, fkErrWrapsTyped}
+		return []faultKind{fkErr, fkWrongKind, fkErrTyped, fkErrWrapsTyped, fkErrZeroValue}
 	case pkErr, pkOpts:
-		return []faultKind{fkErr, fkErrTyped}
+		return []faultKind{fkErr, fkErrTyped, fkErrZeroValue}
 	case pkBlock:
 		return []faultKind{fkBlockPre, fkBlockPost}
 	}
@@ -64,7 +64,11 @@ func faultRun(t *rapid.T) {
 	case mode <= 6:
 		tolerantRun(t)
 	case mode <= 7:
-		brokenTagRun(t)
+		if uni(t, "pagelayout", 2) == 0 {
+			pageLayoutRun(t)
+		} else {
+			brokenTagRun(t)
+		}
 	default:
 		naturalFailRun(t)
 	}
@@ -461,6 +465,128 @@ func checkLine(t *rapid.T, p *Program, err error, want int, cls string, det func
 			return x
 		})
 	}
+}
+
+// pageLayoutRun — two renders sharing ONE context, the way buffalo renders a page and then its layout: the page
+// stores a block with contentFor, the layout runs it with contentOf. The block fails (an injected fault in a
+// probe, or an unknown identifier) only when the LAYOUT runs it: the layout's render must fail, wrap the fault,
+// return no output (C05), and name the line of the contentOf tag in the layout, shifting with the layout (C15).
+func pageLayoutRun(t *rapid.T) {
+	fill := func() *Program {
+		return genProgram(t, genOpts{noise: true, maxPieces: 3, noPartials: true})
+	}
+	f1, f2 := fill(), fill()
+	natural := uni(t, "plnatural", 3) == 0
+	inner := "<%= pv(9001, n1) %>"
+	if natural {
+		inner = "<%= nope9 + 1 %>"
+	}
+	page := f1.Main + "\n<% contentFor(\"cZ\") { %>\nA" + inner + "B\n<% } %>\nend of page\n"
+	var layout string
+	var wantLine int
+	head := f2.Main + "\n"
+	switch uni(t, "plshape", 3) {
+	case 0:
+		layout = head + "<p><%= contentOf(\"cZ\") %></p>\nfooter\n"
+		wantLine = 1 + strings.Count(head, "\n")
+	case 1:
+		layout = head + "<%= if (b1) { %>\n  <%= contentOf(\"cZ\") %>\n<% } %>\nfooter\n"
+		wantLine = 2 + strings.Count(head, "\n")
+	default:
+		layout = head + "<%= for (x) in [1, 2] { %>\n\n  <%= contentOf(\"cZ\", {\"extra\": x}) %>\n<% } %>\n"
+		wantLine = 3 + strings.Count(head, "\n")
+	}
+	mp := simrt.MapPolicy(uni(t, "maporder", 4))
+	mseed := rapid.Uint64().Draw(t, "mapseed")
+	prog := &Program{Main: page, Partials: map[string]string{}, Sites: map[int]*Site{}, FeederSites: map[string]*Site{}, Features: map[string]int{}, JS: f1.JS}
+	run := func(layoutText string, failAt int) (pageOut string, pageErr error, out string, err error, rt *Runtime, afterPage int) {
+		rt = newRuntime(prog, true)
+		rt.FailAt, rt.Kind = failAt, fkErr
+		setOrder(mp, mseed)
+		defer func() {
+			if r := recover(); r != nil {
+				err = &renderPanic{r}
+			}
+		}()
+		herr := underSim(func() {
+			ctx := plush.NewContextWith(rt.contextData())
+			var tp, tl *plush.Template
+			if tp, pageErr = plush.NewTemplate(page); pageErr != nil {
+				return
+			}
+			if pageOut, pageErr = tp.Exec(ctx); pageErr != nil {
+				return
+			}
+			afterPage = len(rt.Log)
+			if tl, err = plush.NewTemplate(layoutText); err != nil {
+				return
+			}
+			out, err = tl.Exec(ctx)
+		})
+		if herr != nil {
+			err = herr
+		}
+		return
+	}
+	det := func(out string, err error) func() map[string]interface{} {
+		return func() map[string]interface{} {
+			return map[string]interface{}{"page": page, "layout": layout, "how": "page and layout executed with ONE context; the contentFor block of the page fails when the layout's contentOf runs it",
+				"contentOf_line_in_layout": wantLine, "output": out, "error": fmt.Sprint(err), "map_order": mp.String()}
+		}
+	}
+	// fault-free pass: where does the probe inside the block run?
+	_, perr, out0, err0, rt0, after := run(layout, 0)
+	if perr != nil {
+		count("pagelayout_page_failed", 1) // filler failed on its own: generator's business
+		return
+	}
+	k := 0
+	if !natural {
+		if err0 != nil {
+			count("pagelayout_faultfree_failed", 1)
+			return
+		}
+		for _, inv := range rt0.Log[after:] {
+			if inv.ID == 9001 {
+				k = inv.Seq
+				break
+			}
+		}
+		if k == 0 {
+			count("pagelayout_probe_not_reached", 1)
+			return
+		}
+	}
+	_ = out0
+	_, perr, out, err, rt, _ := run(layout, k)
+	count("fault_runs", 1)
+	count("fault_fired_page-then-layout", 1)
+	count("pos_fired_contentFor-block-run-by-the-layout", 1)
+	if perr != nil {
+		return
+	}
+	cls := "page-then-layout"
+	if natural {
+		cls += ":natural"
+	}
+	if err == nil {
+		violate(t, "C05", "failing-probe-fails-render", "c05:swallowed:"+cls, det(out, err))
+		return
+	}
+	if !natural && !errors.Is(err, rt.Fault) {
+		violate(t, "C05", "error-wraps-original", "c05:not-wrapped:"+cls, det(out, err))
+	}
+	if out != "" {
+		violate(t, "C05", "failed-render-returns-empty-output", "c05:partial-output:"+cls, det(out, err))
+	}
+	if !propEnabled("C15") {
+		return
+	}
+	lp := &Program{Main: layout}
+	checkLine(t, lp, err, wantLine, cls, det(out, err), func(main string) (string, error) {
+		_, _, o, e, _, _ := run(main, k)
+		return o, e
+	})
 }
 
 // naturalFailRun — a generated statement that fails on its own (unknown
